@@ -889,14 +889,15 @@ public:
         incident_cell_per_hf_.clear();
         n_vertices_ = 0;
 
+        // Resize props: there is no entity left, also for properties
+        // that outlive clear_all_props() through a handle
+        resize_vprops(0u);
+        resize_eprops(0u);
+        resize_fprops(0u);
+        resize_cprops(0u);
+
         if(_clearProps) {
             clear_all_props();
-        } else {
-            // Resize props
-            resize_vprops(0u);
-            resize_eprops(0u);
-            resize_fprops(0u);
-            resize_cprops(0u);
         }
     }
 
